@@ -208,7 +208,10 @@ func (h *hist) emissions(resp *drive.Resp, now time.Time) []seen {
 		if sc.Name != h.cfg.Name {
 			continue
 		}
-		out = append(out, seen{value: sc.Value, expired: sc.Expired(now), raw: line})
+		// A non-empty value is an id handed to the client: Max-Age / Expires have whole-second
+		// resolution and round a sub-second idle timeout to "already over"; only the empty value
+		// (Destroy / Reset) is the instruction to drop the id.
+		out = append(out, seen{value: sc.Value, expired: sc.Value == "", raw: line})
 	}
 	return out
 }
@@ -271,7 +274,17 @@ func (h *hist) do(rq *request) bool {
 	e.Stat("ops", int64(len(rq.Ops)))
 	em := h.emissions(resp, w.now)
 	h.trace[len(h.trace)-1] += fmt.Sprintf(" -> status=%d id=%s fresh=%v data=%v emitted=%s", resp.Status, ob.Start.View.ID, ob.Start.View.Fresh, ob.Start.View.Data, fmtSeen(em))
+	preSt, preWhy := w.status(rq.Presented)
 	j := w.judgeRequest(rq, ob)
+	if preSt == stEither && w.store != nil {
+		// inside a window the statement does not decide (deadline instant, whole-second rounding
+		// of the memory storage): observed and counted, not judged
+		seenAlive := "gone"
+		if ob.Start.View.ID == rq.Presented {
+			seenAlive = "alive"
+		}
+		e.Stat("window-not-judged|"+preWhy+"|"+seenAlive, 1)
+	}
 	if resp.Status != 200 && !j.stop {
 		j.fail(&vio{"api|status-" + fmt.Sprint(resp.Status), "handler response status"})
 	}
@@ -438,6 +451,9 @@ func (w *world) cmpDataOwner(ent *entry, data map[string]string, id string) *vio
 
 // ---------------------------------------------------------------------------------------------
 // generation
+
+// oddDurations: timeouts that are not whole seconds (boundary values of the timeout dimension).
+var oddDurations = []time.Duration{time.Millisecond, 500 * time.Millisecond, 999 * time.Millisecond, 1500 * time.Millisecond, 2500 * time.Millisecond}
 
 var (
 	keyPool   = []string{"k0", "k1", "k2", "k3"}
@@ -621,8 +637,8 @@ func (h *hist) genOps(r *gen.Rand, ci int, mw bool, presented string, n int) []o
 			changed = true
 		case 7:
 			d := time.Duration(r.Range(1, 5)) * time.Second
-			if h.cfg.VStore && r.Bool() {
-				d += 500 * time.Millisecond
+			if r.Chance(2, 5) {
+				d = gen.Pick(r, oddDurations)
 			}
 			if h.parent != nil {
 				d = time.Duration(r.Range(1, 5)) * time.Hour // real-time build: nothing may expire
@@ -706,11 +722,14 @@ func genCfg(r *gen.Rand) cfgT {
 	}
 	cfg.VStore = r.Bool()
 	cfg.Idle = time.Duration(r.Range(1, 5)) * time.Second
-	if cfg.VStore && r.Chance(1, 3) {
-		cfg.Idle += 500 * time.Millisecond
+	if r.Chance(1, 3) {
+		cfg.Idle = gen.Pick(r, oddDurations) // sub-second and fractional, both storages
 	}
 	if r.Bool() {
 		cfg.Abs = cfg.Idle + time.Duration(r.Range(0, 6))*time.Second
+		if r.Chance(1, 3) {
+			cfg.Abs = cfg.Idle + gen.Pick(r, []time.Duration{0, time.Millisecond, 500 * time.Millisecond, 1500 * time.Millisecond})
+		}
 	}
 	if !cfg.VStore {
 		cfg.Gran = time.Second
